@@ -1132,6 +1132,8 @@ class Exec:
                     s0.ghost['_n'] = it.n
                     self.assign(s.target, it.bind(self, s0, z3.IntVal(t)), s0)
                     for s1, o1 in self.exec_block(s.body, s0):
+                        if 'body_end' in spec and spec.get('peel_body_end', False):      # opt-in: hooks written for the cut loop
+                            spec['body_end'](self, s1, o1, z3.IntVal(t))                  # may rely on its havoc state
                         if o1.kind in ('normal', 'continue'):
                             nxt.append(s1)
                         elif o1.kind == 'break':
